@@ -161,6 +161,23 @@ T.bobj = T.mix.bind({k: 10}, T.obj.n, 2);
 Object.defineProperty(T, "acc", {get: function() { return this.counter * 2; }, set: undefined, configurable: true});
 T.re.exec("xttty");
 T.next();
+// one function per binding kind, each counting in template-derived state:
+// named function expression recursing through its self-name (the only
+// immutable declarative binding), closure over an eval-declared variable,
+// catch-parameter closure, with-scope closure, getter/setter pair, functions
+// stored in an array / on a prototype chain, arguments-object aliasing
+T.calls = 0; T.where = "tmpl";
+T.fact = function self(n) { T.calls++; return n < 2 ? T.where : n + self(n - 1); };
+T.same = function me() { return me === T.same; };
+T.ev = (function() { eval("var ec = 0"); return function() { return ++ec; }; })();
+try { throw {n: 0}; } catch (ex) { T.cth = function() { return ++ex.n; }; }
+with ({w: 0}) { T.wth = function() { return ++w; }; }
+T.gsv = 0;
+Object.defineProperty(T, "gs", {get: function() { return T.gsv; }, set: function(v) { T.gsv = v + 1; }, configurable: true});
+T.fns = [function() { return ++T.calls; }, {f: function() { return T.calls += 10; }}];
+T.proto = {pc: 0, inc: function() { return ++this.pc; }};
+T.child = Object.create(T.proto);
+T.alias = (function(a) { T.rd = function() { return a; }; return arguments; })(1);
 "prelude";
 `
 
@@ -172,6 +189,8 @@ const Probe = `
 T.arr.push(T.counter++); T.d.setUTCDate(T.next() + 1); T.obj.n.deep[0]++; delete T.obj.gone; T.d.setTime(T.d.getTime() + TID);
 log(T.arr.join(), T.acc, T.bound(T.args[0]++), T.obj.n.deep[0], T.d.getTime(), T.re.test("ttxtt"), T.re.lastIndex, T.err.message += "!");
 log(T.cat("<" + TID + ">"), T.cat4(TID, "!"), T.cat1(TID), T.pushb(TID), T.bobj(TID), T.seen, "gone" in T.obj);
+T.where = "copy" + TID; T.gs = TID; T.alias[0] += TID;
+log(T.fact(3), T.same(), T.calls, T.ev(), T.cth(), T.wth(), T.gs, T.fns[0](), T.fns[1].f(), T.child.inc(), T.proto.pc, T.rd());
 `
 
 // ProbeMini is the short probe of the copy-only scenario.
